@@ -19,6 +19,12 @@ class Unsupported(Exception):
     """construct outside the verified subset -> obligation is 'undecided', never a violation"""
 
 
+# what a driver catches around the analysis of one function: `Unsupported`, and the exceptions the executors themselves may raise when the code under check has a
+# shape they did not expect (a value of another kind where a number was, a missing operand).  Either way: the function is outside the verified subset (undecided,
+# native fallback) - not a verdict about the code and not a crash of the check.  KeyError is not in the list: NotFound (a function under contract is missing) is one.
+ANALYSIS = (Unsupported, AttributeError, TypeError, IndexError, ValueError, AssertionError, z3.Z3Exception, RecursionError)
+
+
 class Num:
     __slots__ = ("x", "data", "py", "isint", "alias")
 
@@ -129,6 +135,14 @@ class NumExec:
 
     # ------------------------------------------------------------------ running
     def run(s, fn, args, pc=()):
+        # an exception of the ANALYSIS while it executes the code under check (a construct the executor does not model, met in a form it did not expect) is
+        # `outside the verified subset` (undecided, with the native fallback), not a fault of the checker
+        try:
+            return s._run_impl(fn, args, pc)
+        except (AttributeError, TypeError, KeyError, IndexError, ValueError, AssertionError, z3.Z3Exception) as ex_:
+            raise Unsupported(f"analysis error {type(ex_).__name__}: {str(ex_)[:200]}")
+
+    def _run_impl(s, fn, args, pc=()):
         """execute FunctionDef `fn` with argument values; returns [(kind, value, path)], kind in return/raise"""
         p = Path(args, pc)
         outs = []
